@@ -20,7 +20,11 @@
 
     Generic in the pole type P and the residue type C; nothing here computes with numbers.
     Besides the new sequence add_term returns an [event] describing what happened to the term: the
-    events are ghost data (the C++ has no such thing) used to state the truncation bound. *)
+    events are ghost data (the C++ has no such thing) used to state the truncation bound.
+
+    add_term is the retry loop of TermList.h as it is since the repair b3c7635 (insert; while refused: reduce with the
+    blocking element, erase it by iterator, return if negligible, retry).  [add_term_findform] is the former
+    find / erase(key) / insert form, kept for comparison only. *)
 Require Import Bool List Arith.
 Import ListNotations.
 
@@ -50,43 +54,87 @@ Definition set_find (k : P) (l : list term) : option term :=
 
 (** std::set::insert(t)  (_M_get_insert_unique_pos + _M_insert_): the descent finds the first stored x with
     compare(t, x); j = its predecessor; the element is inserted there unless j exists and !compare(j, t)
-    ("equivalent key present": the insertion is silently refused).  Result: (new sequence, inserted?) *)
-Definition set_insert (t : term) (l : list term) : list term * bool :=
+    ("equivalent key present": the insertion is refused and the returned iterator points to j, the BLOCKING element).
+    Result: Inserted (new sequence) | Blocked b j a  (the sequence is b ++ j :: a) *)
+Inductive ins_res : Type :=
+| Inserted (l' : list term)
+| Blocked (b : list term) (j : term) (a : list term).
+
+Definition set_insert_res (t : term) (l : list term) : ins_res :=
   let ba := scan (fun x => comp (pole t) (pole x)) l in
   match rev (fst ba) with
-  | [] => (t :: l, true)
-  | j :: _ => if comp (pole j) (pole t) then (fst ba ++ t :: snd ba, true) else (l, false)
+  | [] => Inserted (t :: l)
+  | j :: rb => if comp (pole j) (pole t) then Inserted (fst ba ++ t :: snd ba) else Blocked (rev rb) j (snd ba)
+  end.
+
+(** insert() as (new sequence, `second` of the returned pair) *)
+Definition set_insert (t : term) (l : list term) : list term * bool :=
+  match set_insert_res t l with
+  | Inserted l' => (l', true)
+  | Blocked _ _ _ => (l, false)
   end.
 
 (** std::set::erase(key k): erases equal_range(k) = [lower_bound(k), upper_bound(k)).
-    Result: (new sequence, erased elements) *)
+    Result: (new sequence, erased elements).   (Used by the former form of add_term only; the present one erases by iterator.) *)
 Definition set_erase (k : P) (l : list term) : list term * list term :=
   let ba := scan (fun x => negb (comp (pole x) k)) l in
   let er := scan (fun x => comp k (pole x)) (snd ba) in
   (fst ba ++ snd er, fst er).
 
-(** what happened to an added term (ghost) *)
+(** what happened to an added term (ghost): the chain of merges it went through -- every step is
+    (stored term that blocked the insertion and was erased, the reduced term = that term += the running sum) --
+    and what became of the last sum. *)
+Inductive final : Type :=
+| FinInserted       (* the (reduced) term was inserted *)
+| FinNegligible     (* the reduced term was negligible and dropped *)
+| FinFuel.          (* the bound of the model's for(;;) ran out; never happens: every retry removes a stored term
+                       ([TermListProofs.add_term_fuel_suffices], no hypothesis on the comparator) *)
 Inductive event : Type :=
-| EvNew                                   (* no like term: inserted *)
-| EvRefused                               (* no like term found, but insert() refused it (never happens: add_term_sorted) *)
-| EvMerged (erased : list term) (sum : term) (inserted : bool)
-                                          (* like term found: [erased] were removed, [sum] was re-inserted (or refused) *)
-| EvNegligible (erased : list term) (sum : term).   (* like term found, the sum was negligible and dropped *)
+| EvChain (steps : list (term * term)) (fin : final).
+(** [EvChain [] FinInserted]: no like term, inserted at once.
+    [EvChain [(x, s)] FinInserted]: blocked by x, s = x += t inserted.  [EvChain [(x, s)] FinNegligible]: s dropped.
+    On a sequence satisfying the invariant chains have at most one step ([TermListProofs.add_term_spec]): the reduced
+    term keeps the pole of the erased one, so it fits where that one was. *)
 
-(** TermList::add_term   (TermList.h:48-59)
+(** TermList::add_term   (TermList.h:48-61)
+      sum = term;
+      for(;;) { res = data.insert(sum);  if(res.second) return;
+                reduced = *res.first;  reduced += sum;  data.erase(res.first);
+                if(is_negligible(reduced, data.size() + 1)) return;
+                sum = reduced; }
+    Term::operator+= adds the residues and keeps the pole of the left operand (the stored term).
+    Result: new sequence, (steps, final disposition). *)
+Fixpoint add_term_loop (fuel : nat) (sum : term) (l : list term) : list term * (list (term * term) * final) :=
+  match set_insert_res sum l with
+  | Inserted l' => (l', ([], FinInserted))
+  | Blocked b e a =>
+    let reduced : term := (pole e, cadd (residue e) (residue sum)) in
+    let l' := b ++ a in
+    if negl (residue reduced) (length l' + 1) then (l', ([(e, reduced)], FinNegligible))
+    else match fuel with
+         | O => (l', ([(e, reduced)], FinFuel))
+         | S f => let r := add_term_loop f reduced l' in (fst r, ((e, reduced) :: fst (snd r), snd (snd r)))
+         end
+  end.
+
+Definition add_term (t : term) (l : list term) : list term * event :=
+  let r := add_term_loop (length l) t l in (fst r, EvChain (fst (snd r)) (snd (snd r))).
+
+(** The form add_term had BEFORE the repair b3c7635 (find / erase(key) / insert, the return value of insert ignored):
       it = data.find(term);
       if(it == data.end()) data.insert(term);
       else { sum = *it; sum += term; data.erase( *it);
-             if(!is_negligible(sum, data.size() + 1)) data.insert(sum); }                              *)
-Definition add_term (t : term) (l : list term) : list term * event :=
+             if(!is_negligible(sum, data.size() + 1)) data.insert(sum); }
+    Kept as a documented fact about the old form: on a sequence satisfying the invariant it agrees with the present form
+    when at most one stored term is like the added one, and differs otherwise (find() returns the LOWER like neighbour,
+    the refused insert() points to the UPPER one): PV.LehmannGenProofs.add_term_findform_agrees / add_term_forms_differ. *)
+Definition add_term_findform (t : term) (l : list term) : list term :=
   match set_find (pole t) l with
-  | None =>
-    let r := set_insert t l in (fst r, if snd r then EvNew else EvRefused)
+  | None => fst (set_insert t l)
   | Some x =>
     let sum : term := (pole x, cadd (residue x) (residue t)) in
     let e := set_erase (pole x) l in
-    if negl (residue sum) (S (length (fst e))) then (fst e, EvNegligible (snd e) sum)
-    else let r := set_insert sum (fst e) in (fst r, EvMerged (snd e) sum (snd r))
+    if negl (residue sum) (S (length (fst e))) then fst e else fst (set_insert sum (fst e))
   end.
 
 (** adding a sequence of terms, in order; events in the same order *)
@@ -97,14 +145,14 @@ Fixpoint add_terms (ts : list term) (l : list term) : list term * list event :=
               let s' := add_terms r (fst s) in (fst s', snd s :: snd s')
   end.
 
-(** TermList::check_terms  (TermList.h:95-109) *)
+(** TermList::check_terms  (TermList.h:103-115): the ordering only (since 7d733ea; negligibility w.r.t. the final size is
+    not an invariant of add_term) *)
 Fixpoint check_sorted (l : list term) : bool :=
   match l with
   | a :: ((b :: _) as r) => comp (pole a) (pole b) && check_sorted r
   | _ => true
   end.
-Definition check_terms (l : list term) : bool :=
-  forallb (fun t => negb (negl (residue t) (S (length l)))) l && check_sorted l.
+Definition check_terms (l : list term) : bool := check_sorted l.
 
 (** the invariant: consecutive stored poles are increasing w.r.t. compare, i.e. at least Tolerance apart *)
 Fixpoint sorted_sep (l : list term) : Prop :=
@@ -124,7 +172,6 @@ End Eval.
 
 End TermList.
 
-Arguments EvNew {P C}.
-Arguments EvRefused {P C}.
-Arguments EvMerged {P C} erased sum inserted.
-Arguments EvNegligible {P C} erased sum.
+Arguments Inserted {P C} l'.
+Arguments Blocked {P C} b j a.
+Arguments EvChain {P C} steps fin.
